@@ -93,3 +93,11 @@ def wf_sub(x):
 def wf_task(script_json, fail_times=0):
     """Body issuing a scripted sequence of deterministic workflow operations (C18)."""
     return WORLD.wf_body(script_json, fail_times)
+
+
+def bk_t1(x):
+    return x
+
+
+def bk_t2(x):
+    return x
